@@ -228,6 +228,22 @@ def run(ctx):
         ctx.violation(Finding('R-ADVIDX', RP, Q, api.stmt_of(isarr), 'the selector classification %s treats kinds as %s: index sequences must be the only "array" kind' % (norm(isarr.value), part)))
     else:
         ctx.ok('R-ADVIDX', 'classification', where, 'isarray: int False, numpy int False, slice False, sequence True')
+    # 1b. the pointwise machinery (new POINTS dimension ...) is set up only for two or more index sequences: one sequence is an
+    # ordinary orthogonal selection
+    from .. import consteval as _ce0
+    aia = [st for st in iter_stmts(fn.body) if isinstance(st, ast.Assign) and isinstance(st.targets[0], ast.Name) and st.targets[0].id == 'anyisarray']
+    for st in aia[:1]:
+        verdicts = []
+        for isa, want in (({'a': True, 'b': False}, False), ({'a': True, 'b': True}, True), ({'a': False, 'b': False}, False), ({'a': True, 'b': True, 'c': True}, True), ({}, False)):
+            got = _ce0.ev(st.value, {'isarray': isa})
+            verdicts.append(None if got is _ce0.UNK else (bool(got) == want))
+        if None in verdicts:
+            ctx.undec('R-ADVIDX', 'anyisarray', where, 'definition outside the evaluated fragment: %s' % norm(st.value)[:60])
+        elif all(verdicts):
+            ctx.ok('R-ADVIDX', 'anyisarray', where, 'true exactly for two or more index sequences (5 cases)')
+        else:
+            ctx.violation(Finding('R-ADVIDX', RP, Q, st, '%s is also true for a single index sequence: an orthogonal selection with one list then gets the dimension of a pointwise selection '
+                                  '(an unused POINTS dimension as long as the list), and pieces cut that way no longer stack back to the original dimensions' % norm(st)))
     # 2. the fancy/non-fancy branch on "anyisarray and needsfancy"
     t = norm(fn)
     # the test with temporaries substituted (paths.dominating_env): "two or more index sequences in the call, and two or more among
@@ -521,6 +537,55 @@ def run(ctx):
             badsi = [si for si, n_ in res if n_ != 1]
             ctx.violation(Finding('R-UNITSLICE', RP, Q, api.stmt_of(c), '%s selects %s elements for si = %s: an integer selection must be kept as a length-1 axis'
                                   % (norm(c), [n_ for si, n_ in res if n_ != 1], badsi)))
+    # 4b'. any other slice built from index values with a stop of <last> + 1: for a last index of -1 the stop is 0 and the slice empty
+    ctx.rule('R-STOPPLUS1', 'a slice built from index values never has the bare stop <index> + 1 (for -1 that is 0: an empty selection); the stop is guarded with `or None`')
+    nsp = 0
+    for rp_, q_ in ((RP, Q), ('core/_functions.py', 'slice_dim')):
+        f_ = ctx.src.mod(rp_).func(q_)
+        for c in walk_expr(f_):
+            if isinstance(c, ast.Call) and dotted(c.func) == 'slice' and len(c.args) >= 2 and c not in unit:
+                stop = c.args[1]
+                if isinstance(stop, ast.BinOp) and isinstance(stop.op, ast.Add) and isinstance(stop.right, ast.Constant) and stop.right.value == 1:
+                    nsp += 1
+                    ctx.violation(Finding('R-STOPPLUS1', rp_, q_, api.stmt_of(c), '%s: when the index is -1 the stop is 0 and the selection is empty (and a run that crosses from negative to '
+                                          'non-negative indices cannot be a slice at all)' % norm(c)))
+        # bounds resolved with slice.indices() are positions for range(), not bounds for another subscript: with a negative step the open
+        # stop resolves to -1, which as a bound means "the last element"
+        resolved = set()
+        for st in iter_stmts(f_.body):
+            if isinstance(st, ast.Assign) and isinstance(st.value, ast.Call) and isinstance(st.value.func, ast.Attribute) and st.value.func.attr == 'indices':
+                for t in st.targets:
+                    resolved |= set(n_.id for n_ in ast.walk(t) if isinstance(n_, ast.Name))
+        if resolved:
+            for n_ in walk_expr(f_):
+                if isinstance(n_, ast.Slice) and n_.step is not None and any(isinstance(x, ast.Name) and x.id in resolved for x in ast.walk(n_)):
+                    nsp += 1
+                    ctx.violation(Finding('R-STOPPLUS1', rp_, q_, api.stmt_of(n_), 'bounds that were resolved with slice.indices() are used as subscript bounds again (%s): for a negative step an open stop '
+                                          'resolves to -1, which as a bound means the last element, so a reversed selection down to index 0 comes back empty' % norm(n_)))
+                    break
+    ctx.count('slices built from index values', nsp)
+    # the selectors belong to the caller: np.asarray of an array is that array, so a store into it rewrites the caller's indices
+    ctx.rule('R-SELECTORRO', 'sliceDimensions never stores into a selector (np.asarray(<selector>) is the caller\'s own array when it is an array already)')
+    f_ = ctx.src.mod(RP).func(Q)
+    kwname = f_.args.kwarg.arg if f_.args.kwarg is not None else 'dimslices'
+    sel = set()
+    for st in iter_stmts(f_.body):
+        if isinstance(st, ast.Assign) and ('%s[' % kwname) in norm(st.value) and not any(isinstance(c, ast.Call) and (dotted(c.func) or '').split('.')[-1] in ('array', 'copy', 'arange', 'atleast_1d')
+                                                                                          for c in walk_expr(st.value)):
+            for t in st.targets:
+                if isinstance(t, ast.Name):
+                    sel.add(t.id)
+    badsel = None
+    for st in iter_stmts(f_.body):
+        tg = st.targets if isinstance(st, ast.Assign) else ([st.target] if isinstance(st, ast.AugAssign) else [])
+        for t in tg:
+            if isinstance(t, ast.Subscript) and isinstance(t.value, ast.Name) and t.value.id in sel:
+                badsel = badsel or st
+    if badsel is not None:
+        ctx.violation(Finding('R-SELECTORRO', RP, Q, badsel, 'the statement writes into an index array handed in by the caller (%s): the same array used for a second dimension or in a later call '
+                              'selects other cells' % norm(badsel)[:50]))
+    else:
+        ctx.ok('R-SELECTORRO', 'selectors', where, 'no store into %s' % (sorted(sel) or 'a selector'))
     # 4c. new dimension lengths: copyDimension honours an explicit length of 0 (empty selections)
     from .c01 import check_copydimension
     check_copydimension(ctx, rule='R-DIMLEN')
